@@ -95,7 +95,7 @@ class Labels(Machine):
                        "remove_label_legal", "remove_label_illegal", "chained_selection", "non_ascii_label",
                        "labeller_array", "labeller_pointcloud", "labeller_labelled_graph", "labeller_wrong_size",
                        "labeller_via_manager", "labeller_3d", "labeller_commutes_checked",
-                       "caller_reuses_constructor_buffers", "with_labels_in_other_order", "selection_of_nothing_refused",
+                       "caller_reuses_constructor_buffers", "with_labels_in_other_order", "selection_of_nothing_refused", "with_labels_naming_a_label_twice", "uncovered_point_refused_at_construction",
                        "add_label_with_empty_index_set", "graph_with_self_loop") + tuple("ran_" + n for n in LABELLERS)
 
     @classmethod
@@ -210,6 +210,30 @@ class Labels(Machine):
         except Exception as ex:
             self.ctx.fail("construct", "constructor_raised", repr(ex))
             return
+        if op["seed"] % 8 == 5 and n >= 2:
+            # masks that leave one point without any label are refused - whatever the caller says about checks it
+            # does not need (skip_checks is about the graph's connectivity checks)
+            p_ = int(g.randint(n))
+            bad = OrderedDict()
+            for nm, ix in labels:
+                mk = np.zeros(n, dtype=bool)
+                mk[[i for i in ix if i != p_]] = True
+                bad[nm] = mk
+            A_ = np.zeros((n, n), dtype=int)
+            for a, b in edges:
+                A_[a, b] = A_[b, a] = 1
+            for sc in (False, True):
+                try:
+                    R_ = LabelledPointUndirectedGraph(pts.copy(), A_, OrderedDict((k_, v_.copy()) for k_, v_ in bad.items()), skip_checks=sc)
+                except ValueError:
+                    self.ctx.probe("uncovered_point_refused_at_construction")
+                    self.ctx.ok()
+                    continue
+                except Exception as ex:
+                    self.ctx.fail("construct", "constructor_raised", repr(ex))
+                    return
+                self.ctx.fail("all_points_labelled", "constructor_accepted_an_uncovered_point",
+                              "point %d carries no label (skip_checks=%r) and the graph was built: labels %r" % (p_, sc, list(R_.labels)))
         m = Model(pts, edges, labels)
         self._compare(G, m, "constructed")
         if how != 0 and op["seed"] % 3 == 0:
@@ -296,6 +320,11 @@ class Labels(Machine):
             arg = list(reversed(L)) if op["seed"] % 8 == 2 else [L[-1]] + L[:-1]
             permuted = True
             self.ctx.probe("with_labels_in_other_order")
+        elif len(L) >= 2 and op["seed"] % 4 == 3:
+            # a request that names a label twice (lists glued together by the caller) selects what it names, once
+            arg = list(L) + [L[op["seed"] % len(L)], L[0]]
+            permuted = True
+            self.ctx.probe("with_labels_naming_a_label_twice")
         try:
             R = G.with_labels(arg)
         except Exception as ex:
